@@ -585,7 +585,15 @@ func (c *cluster) trace(conn *nats.Conn, subject, reply string, data []byte) {
 			if len(d) > 8 {
 				first = int64(proto.Encoding.Uint64(d[:8]))
 			}
-			c.h.s.Logf("%s -> replication response to %s: epoch=%d hw=%d bytes=%d first-offset=%d", who, subject, ep, hw, len(d), first)
+			prog := ""
+			if n := c.nodeOf(conn.Node()); n != nil && n.srv != nil {
+				if st := n.srv.metadata.streams[clStream]; st != nil && st.partitions[0] != nil {
+					for _, id := range simrt.Keys(st.partitions[0].isr) {
+						prog += fmt.Sprintf(" %s@%d", id, st.partitions[0].isr[id].offset)
+					}
+				}
+			}
+			c.h.s.Logf("%s -> replication response to %s: epoch=%d hw=%d bytes=%d first-offset=%d (leader's view of the in-sync replicas:%s)", who, subject, ep, hw, len(d), first, prog)
 		} else if r, err := proto.UnmarshalLeaderEpochOffsetResponse(data); err == nil {
 			c.h.s.Logf("%s -> leader-epoch offset response to %s: end-offset=%d", who, subject, r.EndOffset)
 		}
